@@ -14,7 +14,7 @@ from pyvc import library
 
 from wntr.sim.core import WNTRSimulator
 
-P = ["C05", "C04", "C16"]
+P = ["C05", "C04", "C16", "C10"]
 K = 3
 
 
